@@ -8,10 +8,12 @@ func init() {
 		Run:            func(c *Ctx) { runLZW(c, "C25.lzw-agreement") },
 		MinObligations: 30,
 		Technique:      "static analysis: sibling agreement of the LZW encoder and decoder state machines — symbolic evaluation (over the literal width) of every absolute assignment to width/hi/overflow at the four (re)start sites, order of counter advance vs width test in both machines, must-pass-through of the counter advance after every data code, who-may-emit the clear/eof codes, constant agreement of the Compress/Decompress pair",
-		LevelText:      "Decides the structural conditions that keep the encoder and decoder in lock step and the output in the legacy format: (1) Writer.init, the table-full reset in Writer.incHi, Reader.init and the decoder's clear-code handling all restart from the same state width = lw+1, hi = 2^lw+1, overflow = 2^(lw+1) (evaluated symbolically, so `clear+1`, `1<<lw+1`, `r.eof` are recognised as equal and `clear+2` is not); the decoder's clear/eof are 2^lw and 2^lw+1 and the encoder's maxCode is 2^maxWidth−1; (2) both machines advance hi first and compare it with overflow afterwards, and widen by exactly one bit there; (3) in the encoder every data code written is followed by incHi() on every path before the next code or a successful return (so eof is emitted at the width, and after the clear code, the legacy stream has), and in the decoder every code except the clear code advances hi; (4) a clear code is emitted only inside incHi behind hi == maxCode — never at the start of the stream — and eof only as the last code of Close; (5) Compress and Decompress use common/lzw (not compress/lzw) with the same constants (MSB, 8), write the whole input and close the writer before taking the bytes.",
-		LevelNote:      "Not decided: that decode∘encode is the identity for every input and byte-for-byte equality with a reference legacy encoder — both are relations over all inputs; the rules decide the agreement of the two state machines those rest on. The hash-table probing of the encoder and the prefix/suffix tables of the decoder are not analysed.",
+		LevelText:      "Decides the structural conditions that keep the encoder and decoder in lock step and the output in the legacy format: (1) Writer.init, the table-full reset in Writer.incHi, Reader.init and the decoder's clear-code handling all restart from the same state width = lw+1, hi = 2^lw+1, overflow = 2^(lw+1) (evaluated symbolically, so `clear+1`, `1<<lw+1`, `r.eof` are recognised as equal and `clear+2` is not); the decoder's clear/eof are 2^lw and 2^lw+1 and the encoder's maxCode is 2^maxWidth−1; (2) both machines advance hi first and compare it with overflow afterwards, and widen by exactly one bit there; (3) in the encoder every data code written is followed by incHi() on every path before the next code or a successful return (so eof is emitted at the width, and after the clear code, the legacy stream has), and in the decoder every code except the clear code advances hi — also on the path that hands the filled output buffer back to the caller; the encoder reduces every hash-table index (first probe, lookup steps, insertion steps) with the single mask len(table)−1, so lookup and insertion walk the same slot sequence; (4) a clear code is emitted only inside incHi behind hi == maxCode — never at the start of the stream — and eof only as the last code of Close; (5) Compress and Decompress use common/lzw (not compress/lzw) with the same constants (MSB, 8), write the whole input and close the writer before taking the bytes.",
+		LevelNote:      "Not decided: that decode∘encode is the identity for every input and byte-for-byte equality with a reference legacy encoder — both are relations over all inputs; the rules decide the agreement of the two state machines those rest on. The hash function of the encoder's table and the prefix/suffix tables of the decoder are not analysed.",
 		Explanation:    "C25 rules: lzw-agreement (K4 symbolic table agreement, K8 order, K2 pairing, K3 who-may-emit).",
 		Mutants: []Mutant{
+			{Name: "decoder-flush-before-record", File: "common/lzw/reader.go", Old: "\t\tr.last, r.hi = code, r.hi+1\n", New: "\t\tif r.o >= flushBuffer {\n\t\t\tbreak\n\t\t}\n\t\tr.last, r.hi = code, r.hi+1\n", Desc: "output handed back before the consumed code is recorded: everything after 4 KB decodes wrongly"},
+			{Name: "lookup-probe-mask", File: "common/lzw/writer.go", Old: "\t\t\th = (h + 1) & tableMask\n\t\t\tt = w.table[h]", New: "\t\t\th = (h + 1) & maxCode\n\t\t\tt = w.table[h]", Desc: "lookup probes another slot sequence than insertion: valid LZW but not the legacy bytes"},
 			{Name: "reset-hi-off-by-one", File: "common/lzw/writer.go", Old: "\t\tw.hi = clear + 1\n", New: "\t\tw.hi = clear + 2\n", Desc: "encoder restarts one code ahead of the decoder after a table reset"},
 			{Name: "close-without-advance", File: "common/lzw/writer.go", Old: "\t\tif err := w.incHi(); err != nil && err != errOutOfCodes {\n\t\t\treturn err\n\t\t}\n", New: "", Desc: "eof written at the old width / without the clear code on boundary lengths"},
 			{Name: "compare-before-advance", File: "common/lzw/writer.go", Old: "\tw.hi++\n\tif w.hi == w.overflow {\n\t\tw.width++\n\t\tw.overflow <<= 1\n\t}\n", New: "\tif w.hi == w.overflow {\n\t\tw.width++\n\t\tw.overflow <<= 1\n\t}\n\tw.hi++\n", Desc: "encoder widens one code later than the decoder"},
